@@ -554,7 +554,7 @@ func registerReflect(in *Interp) {
 		if kindOf(r.t) == kInterface && kindOf(x.t) != kInterface {
 			*r.addr = Iface{t: x.t, v: copyVal(x.load())}
 		} else {
-			*r.addr = copyVal(x.load())
+			storeInto(r.addr, x.load())
 		}
 		return nil
 	}
